@@ -890,7 +890,7 @@ impl EdnsData {
 
     pub fn get_cookie(&self) -> Option<(&[u8], Option<&[u8]>)> {
         self.get_opt(&EDNS_COOKIE)
-            .map(|opt| (&opt.data[..8], opt.data.get(8..)))
+            .and_then(|opt| Some((opt.data.get(..8)?, opt.data.get(8..))))
     }
 
     pub fn set_cookie(&mut self, client: &[u8], server: &[u8]) {
